@@ -176,7 +176,7 @@ func c17Use(c *Ctx, rule string) {
 	closes := f.Calls(arm, false, "storage.RelationService.Close")
 	var prevClose *ast.CallExpr
 	for _, cl := range closes {
-		if exprKey(cl.Fun.(*ast.SelectorExpr).X) == "s.RelationService" {
+		if exprKey(cl.Fun.(*ast.SelectorExpr).X) == recvName(f)+".RelationService" {
 			prevClose = cl
 		}
 	}
@@ -196,7 +196,7 @@ func c17Use(c *Ctx, rule string) {
 			inspectBody(arm, func(x ast.Node) bool {
 				if as, ok := x.(*ast.AssignStmt); ok {
 					for _, l := range as.Lhs {
-						if exprKey(l) == "s.RelationService" {
+						if exprKey(l) == recvName(f)+".RelationService" {
 							if sl, ok := g.Locate(as); ok {
 								storeLoc = &sl
 							}
@@ -213,7 +213,7 @@ func c17Use(c *Ctx, rule string) {
 					}
 					// previous service exists: `s.RelationService != nil` is true
 					if info, ok := g.EdgeInfo(b, si); ok {
-						if be, ok := ast.Unparen(info.Cond).(*ast.BinaryExpr); ok && exprKey(be.X) == "s.RelationService" && isNilIdent(f, be.Y) {
+						if be, ok := ast.Unparen(info.Cond).(*ast.BinaryExpr); ok && exprKey(be.X) == recvName(f)+".RelationService" && isNilIdent(f, be.Y) {
 							if (be.Op == token.NEQ) != info.Val {
 								return false
 							}
@@ -243,7 +243,7 @@ func c17Use(c *Ctx, rule string) {
 	inspectBody(arm, func(x ast.Node) bool {
 		if ifs, ok := x.(*ast.IfStmt); ok && reselect == nil && ifs.Pos() < op.Pos() {
 			s := exprKey(ifs.Cond)
-			if strings.Contains(s, "s.CurDB") && strings.Contains(s, "DBName") {
+			if strings.Contains(s, recvName(f)+".CurDB") && strings.Contains(s, "DBName") {
 				reselect = ifs.Cond
 			}
 		}
@@ -289,12 +289,18 @@ func c17Existence(c *Ctx, rule string) {
 		okDom := g.Dominates(tl, nl)
 		// polarity
 		cond := exprKey(test.Cond)
-		okPol := (spec.sentinel == "ErrDBNotExist" && cond == "!exists") || (spec.sentinel == "ErrDBExists" && cond == "exists")
+		exName := "exists"
+		for _, call := range f.Calls(f.Decl.Body, false, "storage.dbFilePath") {
+			if o := f.resultVar(f.Decl.Body, call, 1); o != nil {
+				exName = o.Name()
+			}
+		}
+		okPol := (spec.sentinel == "ErrDBNotExist" && cond == "!"+exName) || (spec.sentinel == "ErrDBExists" && cond == exName)
 		c.Check(okDom && okPol, rule, key, test.Pos(), "existence test ("+cond+" -> "+spec.sentinel+") dominates newFileStore", "the existence test does not dominate newFileStore or has the wrong polarity: selecting a missing database creates its file / creating an existing one overwrites its header")
 		// the exists flag comes from dbFilePath on the same name
 		srcOK := false
 		for _, call := range f.Calls(f.Decl.Body, false, "storage.dbFilePath") {
-			if o := f.resultVar(f.Decl.Body, call, 1); o != nil && o.Name() == "exists" {
+			if o := f.resultVar(f.Decl.Body, call, 1); o != nil && strings.Contains(exprKey(test.Cond), o.Name()) {
 				srcOK = true
 			}
 		}
